@@ -57,11 +57,21 @@ for name, wsdl in corpus:
     loc = m.group(1) if m else ""
     inst_src = os.path.join(VERIF, "corpus", "instances", name + ".json")
     inst_dst = os.path.join(out_dir, f"c{idx}.instances.json")
-    if os.path.isfile(inst_src):
-        open(inst_dst, "w").write(open(inst_src).read())
-    else:
-        sib = os.path.splitext(wsdl)[0] + ".instances.json"
-        open(inst_dst, "w").write(open(sib).read() if os.path.isfile(sib) else "{}")
+    sib = os.path.splitext(wsdl)[0] + ".instances.json"
+    raw = json.load(open(inst_src)) if os.path.isfile(inst_src) else (json.load(open(sib)) if os.path.isfile(sib) else {})
+    # instance documents may be keyed by WSDL operation name; attach them to the emitted method (and free function)
+    # whose name is the same up to case and underscores - a tolerant match, not a prediction of zeep's naming
+    norm = lambda x: x.replace("_", "").lower()
+    inst = {}
+    emitted_names = [o[0] for o in ops]
+    for k, v in raw.items():
+        for n in emitted_names:
+            if norm(n) == norm(k):
+                inst[n] = v
+                inst["fn:" + n] = v
+    json.dump(inst, open(inst_dst, "w"))
+    if raw and len(inst) < len(raw):
+        notes.append(f"{name}: {len(raw) - len(inst) // 2} instance documents matched no emitted operation")
     free = re.findall(r"\npub async fn (\w+)\(req: (\w+), credentials: Option<\(String, String\)>\) -> error::SoapResult<(\w+)>", text)
     mods.append(f"#[allow(clippy::all, warnings)]\npub mod c{idx};")
     def parts(In):
